@@ -96,6 +96,9 @@ type Plan struct {
 	// CfgKind: shape of the GRPCgcpConfig handed over (0 full, 1 no channel pool,
 	// 2 empty, 3 nil, 4 methods only)
 	CfgKind int `json:"cfg_kind,omitempty"`
+	// Shared: all endpoint lists of one call are windows into one array owned by
+	// the application, each with the following lists in its spare capacity
+	Shared bool `json:"shared,omitempty"`
 }
 
 //go:norace
@@ -121,6 +124,14 @@ func genOpts(r *rand.Rand, faults bool, timed bool) OptsSpec {
 		if timed && r.IntN(3) == 0 {
 			me.RMs = []int{0, 10, 30}[r.IntN(3)]
 			me.DMs = []int{0, 10, 30}[r.IntN(3)]
+			if r.IntN(8) == 0 {
+				// negative durations are accepted like any other value (timers fire at once)
+				if r.IntN(2) == 0 {
+					me.RMs = -5
+				} else {
+					me.DMs = -5
+				}
+			}
 		}
 		o.MEs = append(o.MEs, me)
 	}
@@ -144,6 +155,7 @@ func Generate(r *rand.Rand, profile string, concurrent bool, avoid map[string]bo
 	if r.IntN(3) == 0 {
 		p.CfgKind = 1 + r.IntN(4)
 	}
+	p.Shared = !p.Alias && r.IntN(4) == 0
 	bad := profile == "gmebad"
 	p.Init = genOpts(r, bad && r.IntN(4) == 0, true)
 	if concurrent {
@@ -187,6 +199,25 @@ func Generate(r *rand.Rand, profile string, concurrent bool, avoid map[string]bo
 		}
 		o.ID = i + 1
 		p.Ops = append(p.Ops, o)
+	}
+	if concurrent {
+		// bursts assume that otherwise valid options are accepted: no negative durations there
+		pos := func(sp *OptsSpec) {
+			for i := range sp.MEs {
+				if sp.MEs[i].RMs < 0 {
+					sp.MEs[i].RMs = 0
+				}
+				if sp.MEs[i].DMs < 0 {
+					sp.MEs[i].DMs = 0
+				}
+			}
+		}
+		pos(&p.Init)
+		for i := range p.Ops {
+			if p.Ops[i].Opts != nil {
+				pos(p.Ops[i].Opts)
+			}
+		}
 	}
 	return p
 }
@@ -364,21 +395,22 @@ type sim struct {
 
 	// concurrent bursts: history of accepted configurations, the one being
 	// applied by the (serialized) update task and the number of completed updates
-	solo      bool // probes run as the only released task
-	twin      *grpcgcp.GCPMultiEndpoint
-	twinPools []*fakePool
-	twinTasks []*kern.Task
-	ctxs      map[string]context.Context // one context object per name, shared by all calls and both instances
-	lastOpts  *grpcgcp.GCPMultiEndpointOptions
-	own       *grpcgcp.GCPMultiEndpointOptions // plan.Alias: the application's one options object
-	cfgHist   []*cfgRec
-	seq       int // harness event sequence (concurrent bursts)
-	parUsed   bool
-	lastSpec  *OptsSpec
-	concCalls []*callRec
-	curUpd    int
-	updDone   int
-	judgedTo  int
+	solo               bool // probes run as the only released task
+	twin               *grpcgcp.GCPMultiEndpoint
+	twinPools          []*fakePool
+	twinTasks          []*kern.Task
+	ctxs               map[string]context.Context // one context object per name, shared by all calls and both instances
+	lastOpts           *grpcgcp.GCPMultiEndpointOptions
+	own                *grpcgcp.GCPMultiEndpointOptions // plan.Alias: the application's one options object
+	master, masterWant []string
+	cfgHist            []*cfgRec
+	seq                int // harness event sequence (concurrent bursts)
+	parUsed            bool
+	lastSpec           *OptsSpec
+	concCalls          []*callRec
+	curUpd             int
+	updDone            int
+	judgedTo           int
 }
 
 //go:norace
@@ -465,6 +497,13 @@ func (s *sim) buildOptsFresh(o OptsSpec) *grpcgcp.GCPMultiEndpointOptions {
 		Default:        meNames[o.Default%4],
 		DialFunc:       s.dial,
 	}
+	// With plan.Shared every endpoint list is a window into ONE array owned by the
+	// application, with the following lists in its spare capacity: a library that
+	// appends to a list it was given writes into its neighbours.
+	var master []string
+	if s.plan.Shared {
+		master = make([]string, 0, 64)
+	}
 	for i, me := range o.MEs {
 		eps := []string{}
 		for _, e := range me.Eps {
@@ -473,6 +512,11 @@ func (s *sim) buildOptsFresh(o OptsSpec) *grpcgcp.GCPMultiEndpointOptions {
 		if o.EmptyME == i+1 {
 			eps = []string{}
 		}
+		if master != nil && len(eps) > 0 {
+			start := len(master)
+			master = append(master, eps...)
+			eps = master[start:len(master)]
+		}
 		mo.MultiEndpoints[meNames[me.Name%4]] = &multiendpoint.MultiEndpointOptions{
 			Endpoints: eps, RecoveryTimeout: time.Duration(me.RMs) * time.Millisecond, SwitchingDelay: time.Duration(me.DMs) * time.Millisecond}
 	}
@@ -480,7 +524,31 @@ func (s *sim) buildOptsFresh(o OptsSpec) *grpcgcp.GCPMultiEndpointOptions {
 		mo.Default = "nosuch"
 	}
 	s.lastOpts = mo
+	if master != nil {
+		s.master = master
+		s.masterWant = append([]string{}, master...)
+	}
 	return mo
+}
+
+// masterCheck: the call has returned; was the application's endpoint array
+// written to? No statement forbids that by itself (only the routing "as
+// configured" that follows from it is judged), so this is a reach probe: the
+// expected routing keeps following the lists as they were passed in.
+//
+//go:norace
+func (s *sim) masterCheck(when string) {
+	if s.master == nil || s.stop {
+		return
+	}
+	for i := range s.masterWant {
+		if s.master[i] != s.masterWant[i] {
+			s.res.Count("probe:caller_endpoint_array_overwritten", 1)
+			s.k.Logf("note: %s: the application's endpoint array was %v when passed in and is %v after the call", when, s.masterWant, s.master[:len(s.masterWant)])
+			break
+		}
+	}
+	s.master, s.masterWant = nil, nil
 }
 
 // scribbleOpts: the call that received the options has returned; the
@@ -507,6 +575,21 @@ func (s *sim) scribbleOpts() {
 
 //go:norace
 func invalid(o OptsSpec) bool { return o.BadDef || o.EmptyME > 0 }
+
+// negDur: some MultiEndpoint has a negative recovery timeout or switching delay.
+// The statements list the invalid option kinds without it: accepting such options
+// (a negative duration is a timer that fires at once) and rejecting them are both
+// allowed; a rejection is held to C16's "nothing changed, nothing left behind".
+//
+//go:norace
+func negDur(o OptsSpec) bool {
+	for _, me := range o.MEs {
+		if me.RMs < 0 || me.DMs < 0 {
+			return true
+		}
+	}
+	return false
+}
 
 // call runs fn as a task; returns false if it panicked.
 //
@@ -642,6 +725,7 @@ func (s *sim) run(src *simkit.Source, logOn bool) {
 		}
 	})
 	k.Quiesce()
+	s.masterCheck("NewGCPMultiEndpoint")
 	s.scribbleOpts()
 	s.kernelFailure()
 	if s.stop || s.panicked(c, "NewGCPMultiEndpoint") {
@@ -652,9 +736,12 @@ func (s *sim) run(src *simkit.Source, logOn bool) {
 	switch {
 	case wantErr && err == nil:
 		s.vio("C16", "invalid-construction-accepted", s.kindOf(init), fmt.Sprintf("NewGCPMultiEndpoint accepted invalid options %+v", init))
-	case !wantErr && err != nil:
+	case !wantErr && err != nil && !negDur(init):
 		s.vio("C15", "valid-construction-rejected", "", fmt.Sprintf("NewGCPMultiEndpoint(%+v) = %v", init, err))
 	case err != nil:
+		if !wantErr {
+			s.res.Count("probe:negative_duration_options_rejected", 1)
+		}
 		s.res.Count("fault:construction_rejected", 1)
 		// a failed construction leaves no connection or goroutine behind
 		s.leakCheck("failed-construction")
@@ -701,6 +788,8 @@ func (s *sim) kindOf(o OptsSpec) string {
 		return "empty-endpoint-list"
 	case o.DialFail > 0:
 		return "dial-failure"
+	case negDur(o):
+		return "negative-duration"
 	}
 	return "valid"
 }
@@ -1184,6 +1273,7 @@ func (s *sim) exec(o Op) {
 			s.k.Quiesce()
 		}
 		if c.done {
+			s.masterCheck("UpdateMultiEndpoints")
 			s.scribbleOpts()
 		}
 		s.kernelFailure()
@@ -1204,8 +1294,11 @@ func (s *sim) exec(o Op) {
 			return
 		}
 		if !wantErr && err != nil {
-			s.vio("C15", "valid-update-rejected", "", fmt.Sprintf("UpdateMultiEndpoints = %v", err))
-			return
+			if !negDur(sp) {
+				s.vio("C15", "valid-update-rejected", "", fmt.Sprintf("UpdateMultiEndpoints = %v", err))
+				return
+			}
+			s.res.Count("probe:negative_duration_options_rejected", 1)
 		}
 		if err != nil {
 			s.rejected++
